@@ -178,6 +178,10 @@ func (tc *TC) SessionRegCounts(sess int) (tm, rm int) {
 // CountOf reports how many requests with the given body code were handled so far.
 func (tc *TC) CountOf(code int) int { return tc.counts[code] }
 
+// StartXidsAt makes the coordinator number its global transactions from n+1
+// (a long-running server: the numbers a client meets are arbitrary).
+func (tc *TC) StartXidsAt(n int64) { tc.nextXid = n }
+
 func (tc *TC) delay() time.Duration {
 	return tc.Lat[tc.Sim.Tape.Choose(len(tc.Lat))]
 }
